@@ -85,4 +85,18 @@ theorem tie_rule_locks :
     C14.ruleLocks = ["GetCFSQuotaScaleRatio RLock RUnlock", "UpdateCFSQuotaEnabled Lock Unlock",
                      "UpdateCPUNormalizationRatio Lock Unlock"] := by decide
 
+/-- runtime proxy, hook answer -> executor (utils.go updateResource, helpers followed): the conditions under which each
+    observed field is taken over are the ones of the model's `mergeHook` (quota: `!= 0`, so -1 counts). -/
+theorem tie_cri_hook_rules :
+    C14.criHookRules =
+      ["CpuPeriod if b.CpuPeriod > 0", "CpuQuota if b.CpuQuota != 0", "CpuShares if b.CpuShares > 0",
+       "CpusetCpus always", "CpusetMems always", "MemoryLimitInBytes if b.MemoryLimitInBytes > 0"] := by rfl
+
+/-- runtime proxy, kubelet update request -> checkpoint (updateResourceByUpdateContainerResourceRequest): model `mergeUpd`. -/
+theorem tie_cri_update_rules :
+    C14.criUpdateRules =
+      ["CpuPeriod if b.CpuPeriod > 0", "CpuQuota if b.CpuQuota != 0", "CpuShares if b.CpuShares > 0",
+       "CpusetCpus if b.CpusetCpus != \"\"", "CpusetMems if b.CpusetMems != \"\"",
+       "MemoryLimitInBytes if b.MemoryLimitInBytes > 0"] := by rfl
+
 end KoordVerif.C14
